@@ -121,15 +121,15 @@ Qed.
 (* namespaces *)
 Lemma ns_decls_inv ns : NoDup (keys (ns_decls ns)) /\ forall k, In k (keys (ns_decls ns)) -> has_key k NSMAP = false.
 Proof.
-  unfold ns_decls. set (f := fun acc tok => _). 
+  unfold ns_decls.
   assert (G : forall toks acc, NoDup (keys acc) -> (forall k, In k (keys acc) -> has_key k NSMAP = false) ->
-              NoDup (keys (fold_left f toks acc)) /\ forall k, In k (keys (fold_left f toks acc)) -> has_key k NSMAP = false).
+              NoDup (keys (fold_left ns_step toks acc)) /\ forall k, In k (keys (fold_left ns_step toks acc)) -> has_key k NSMAP = false).
   { induction toks as [|t toks IH]; intros acc H1 H2; [split; assumption|]. cbn [fold_left]. apply IH.
-    - unfold f. destruct (split_on 61%N t) as [|k [|v [|? ?]]]; try exact H1. destruct k as [|c k]; [exact H1|].
+    - unfold ns_step. destruct (ns_entry t) as [[k v]|]; [|exact H1].
       destruct (has_key _ NSMAP); [exact H1|]. apply NoDup_dset. exact H1.
-    - unfold f. destruct (split_on 61%N t) as [|k [|v [|? ?]]]; try exact H2. destruct k as [|c k]; [exact H2|].
-      destruct (has_key (s_xmlns_colon ++ c :: k) NSMAP) eqn:E; [exact H2|]. cbn [negb andb]. intros k' Hk'.
-      rewrite keys_dset in Hk'. destruct (mem (s_xmlns_colon ++ c :: k) (keys acc)); [apply H2; exact Hk'|].
+    - unfold ns_step. destruct (ns_entry t) as [[k v]|]; [|exact H2].
+      destruct (has_key (s_xmlns_colon ++ k) NSMAP) eqn:E; [exact H2|]. cbn [negb]. intros k' Hk'.
+      rewrite keys_dset in Hk'. destruct (mem (s_xmlns_colon ++ k) (keys acc)); [apply H2; exact Hk'|].
       apply in_app_or in Hk' as [Hk'|[<-|[]]]; [apply H2; exact Hk'|exact E]. }
   apply G; [constructor|intros ? []].
 Qed.
